@@ -643,3 +643,74 @@ Lemma witness_fixed_ok :
   length (free (run (init true true 4 8) witness_write_after_close)) = 4%nat /\
   sendb (streams (run (init true false 4 8) witness_write_after_close) 2) = [0].
 Proof. vm_compute. repeat split; reflexivity. Qed.
+
+(* ================= every exit of Flush leaves no shared-memory slice in the send buffer ================= *)
+(* whatever Flush returns - nil, ErrStreamClosed (stream not open), ErrQueueFull (after the retries), or the result
+   of the socket send of the fallback path (ErrConnectionWriteTimeout included: writeFallback recycles BEFORE it
+   sends, independently of the send's outcome) - the flushing stream's send buffer holds no slot afterwards, and
+   on every exit other than the successful queue put its slots are back in the free lists *)
+Definition sendb_nil (k : nat) (s : st) : Prop := sendb (streams s k) = [].
+
+Lemma sn_set_stream k k' v s : (k' = k -> sendb v = []) -> sendb_nil k s -> sendb_nil k (set_stream k' v s).
+Proof.
+  intros Hv H. unfold sendb_nil. cbn [set_stream streams]. destruct (Nat.eq_dec k k') as [->|N];
+    [rewrite updn_eq; apply Hv; reflexivity | rewrite updn_neq by exact N; exact H].
+Qed.
+
+Lemma sn_deliver_data e sid p k s : sendb_nil k s -> sendb_nil k (deliver_data e sid p s).
+Proof.
+  intro H. unfold deliver_data. destruct (alive _); [| destruct e].
+  - apply sn_set_stream; [intros ->; exact H | exact H].
+  - unfold sendb_nil. cbn [add_leaked streams]. apply sn_set_stream; [intros _; reflexivity | exact H].
+  - exact H.
+Qed.
+Lemma sn_deliver_close e sid k s : sendb_nil k s -> sendb_nil k (deliver_close e sid s).
+Proof. intro H. unfold deliver_close. destruct (alive _); [apply sn_set_stream; [intros ->; exact H | exact H] | exact H]. Qed.
+Lemma sn_deliver e k s q : sendb_nil k s -> sendb_nil k (deliver e s q).
+Proof. intro H. unfold deliver. destruct (q_closed q); [apply (sn_deliver_close e (q_sid q) k s H) | apply sn_deliver_data; exact H]. Qed.
+Lemma sn_fold e k q : forall s, sendb_nil k s -> sendb_nil k (fold_left (deliver e) q s).
+Proof. induction q as [|a q IH]; intros s H; cbn [fold_left]; [exact H | apply IH, sn_deliver, H]. Qed.
+Lemma sn_poll e k s : sendb_nil k s -> sendb_nil k (do_poll e s).
+Proof. intro H. unfold do_poll. apply sn_fold. exact H. Qed.
+
+Theorem flush_leaves_no_slice e sid sizes wpos s :
+  0 < sumz sizes -> sendb (streams (do_flush e sid sizes wpos s) (key e sid)) = [].
+Proof.
+  intro Hs. unfold do_flush. set (k := key e sid). set (v := streams s k).
+  assert (E : (sumz sizes <=? 0) = false) by (apply Z.leb_gt; exact Hs). rewrite E.
+  assert (S1 : forall fb, sendb_nil k (set_stream k (with_send v fb) s)) by (intro fb; unfold sendb_nil; cbn [set_stream streams]; rewrite updn_eq; reflexivity).
+  destruct (is_open v); cbn [negb]; [| apply (S1 (infb v))].
+  destruct (sheap v || infb v); [apply sn_deliver_data, sn_poll, (S1 true) |].
+  destruct (_ >=? _); apply (S1 false).
+Qed.
+
+Lemma free_mono_deliver e s q x : In x (free s) -> In x (free (deliver e s q)).
+Proof.
+  intro H. unfold deliver, deliver_close, deliver_data.
+  destruct (q_closed q); [destruct (alive _); cbn [add_free set_stream free]; apply in_app_iff; left; exact H |].
+  destruct (alive _); [exact H | destruct e; [exact H | cbn [add_free free]; apply in_app_iff; left; exact H]].
+Qed.
+Lemma free_mono_fold e q x : forall s, In x (free s) -> In x (free (fold_left (deliver e) q s)).
+Proof. induction q as [|a q IH]; intros s H; cbn [fold_left]; [exact H | apply IH, free_mono_deliver, H]. Qed.
+
+(* the exits that do not hand the chain to the peer: stream not open / fallback (whatever the socket send returns) /
+   queue full after the retries *)
+Definition flush_keeps_nothing (e : bool) (sid : nat) (s : st) : bool :=
+  let v := streams s (key e sid) in
+  negb (is_open v) || (sheap v || infb v) || (Z.of_nat (length (queue_to (negb e) s)) >=? qcap s).
+
+Theorem flush_error_exits_recycle e sid sizes wpos s x :
+  0 < sumz sizes -> flush_keeps_nothing e sid s = true ->
+  In x (sendb (streams s (key e sid))) -> In x (free (do_flush e sid sizes wpos s)).
+Proof.
+  intros Hs Hk Hx. unfold do_flush, flush_keeps_nothing in *. set (k := key e sid) in *. set (v := streams s k) in *.
+  assert (E : (sumz sizes <=? 0) = false) by (apply Z.leb_gt; exact Hs). rewrite E.
+  destruct (is_open v); cbn [negb orb] in *; [| cbn [add_free set_stream free]; apply in_app_iff; right; exact Hx].
+  destruct (sheap v || infb v); cbn [orb] in Hk.
+  - unfold deliver_data. 
+    assert (H0 : In x (free (do_poll (negb e) (add_free (sendb v) (set_stream k (with_send v true) s))))).
+    { unfold do_poll. apply free_mono_fold. cbn [set_queue add_free set_stream free]. apply in_app_iff. right. exact Hx. }
+    destruct (alive _); [exact H0 | destruct (negb e); [exact H0 | cbn [add_free free]; apply in_app_iff; left; exact H0]].
+  - rewrite Hk. cbn [add_free set_stream free]. rewrite <- (firstn_skipn (S wpos) (sendb v)) in Hx.
+    apply in_app_iff in Hx. rewrite !in_app_iff. tauto.
+Qed.
